@@ -300,7 +300,7 @@ func runC14(r *Run) {
 		if len(gos) == 1 {
 			r.MustGuard(fn, "getByHash:cache-filled-only-after-read", "nil?iface(trillian/ctfe/storage.IssuanceChainStorage).FindByKey(*)#1", "non", gos, "cache fill")
 			g := gos[0].(*ssa.Go)
-			r.Check("getByHash:cache-fill.args", r.D.D(g.Call.Args[1]) == "p2" && glob("iface(trillian/ctfe/storage.IssuanceChainStorage).FindByKey(*)#0", r.D.D(g.Call.Args[2])), r.Where(g), "cache filled with (hash, chain read)")
+			r.Check("getByHash:cache-fill.args", len(g.Call.Args) >= 3 && r.D.D(g.Call.Args[1]) == "p2" && glob("iface(trillian/ctfe/storage.IssuanceChainStorage).FindByKey(*)#0", r.D.D(g.Call.Args[2])), r.Where(g), "cache filled with (hash, chain read)")
 		} else {
 			r.Fail("getByHash:cache-fill", r.FnPos(fn), fmt.Sprintf("%d detached cache fills", len(gos)))
 		}
@@ -477,7 +477,7 @@ func c14ChainStore(r *Run) {
 				r.Check("add:store-dominates-cache-fill", add[0].Block().Dominates(gos[0].Block()) && add[0].Block() != gos[0].Block(), r.Where(gos[0]), "the storage write dominates the cache fill")
 			}
 			g := gos[0].(*ssa.Go)
-			r.Check("add:cache-fill.args", r.D.D(g.Call.Args[1]) == "trillian/ctfe.issuanceChainHash(p2)" && r.D.D(g.Call.Args[2]) == "p2", r.Where(g), "cache filled with (hash(chain), chain)")
+			r.Check("add:cache-fill.args", len(g.Call.Args) >= 3 && r.D.D(g.Call.Args[1]) == "trillian/ctfe.issuanceChainHash(p2)" && r.D.D(g.Call.Args[2]) == "p2", r.Where(g), "cache filled with (hash(chain), chain)")
 		}
 		// cache short-cut only when err == nil && entry != nil
 		get := "iface(trillian/ctfe/cache.IssuanceChainCache).Get(*)"
